@@ -263,7 +263,7 @@ func TestVerifC05(t *testing.T) {
 	defer res.Guard()
 	base, cleanup := vrep.Scratch("c05")
 	defer cleanup()
-	res.Rule = "(1) every single (quick) / pair (thorough) of non-default answers of the file-system and mmap calls made by open/Add/growth/rotation, enumerated by DFS over fault choice points; (2) every single (and for three bases every pair) 32-bit field overwrite of valid files at rest, then used by the real process under a step budget; (3) a menu of initial directory states. Classes: distinct end states (fault leg), oracle classes (damage leg)"
+	res.Rule = "(1) every single (quick) / pair (thorough) of non-default answers of the file-system and mmap calls made by open/Add/growth/rotation, enumerated by DFS over fault choice points; (2) every single (and for three bases every pair) 32-bit field overwrite of valid files at rest, then used by the real process under a step budget; (3) a menu of initial directory states. Classes: distinct end states (fault leg), oracle classes (damage leg); oracles on every damaged file: no panic / fault / budget overrun, no descriptor or mapping left (/proc/self/fd, /proc/self/maps), untouched counters neither changed nor lost; plus multi-page files cut to 7 lengths and a file grown sparsely beyond 4 GiB"
 	res.Assumptions = []string{"faults are injected at the os / mmap call boundary of internal/counter and internal/telemetry", "truncation of a mapped file by a foreign program is outside the property"}
 	if p.Replay != "" {
 		zzvReplay(p.Replay, func(name string) *sched.Scenario { return zzvC05FaultScenario(base) })
